@@ -68,6 +68,8 @@ def run(ctx):
     rng = ctx.rng("c18")
     thorough = ctx.tier == "thorough"
     for d in range(60 if thorough else 5):
+        if ctx.over_budget():
+            break
         w = gen.gen_world(rng, max_arity=2)
         acts = []
         for i in range(4):
